@@ -19,7 +19,7 @@ from __future__ import annotations
 
 import z3
 
-from .engine import Unsupported
+from .engine import PathEnd, Unsupported
 from .loops import havoc_value
 from .values import PList, SArr, Sym, fresh, fresh_name, to_z3, zint
 
@@ -32,7 +32,17 @@ class Rule:
     ('bool' | 'int' | 'real' | 'oref' | callable(E) -> fresh symbolic value);  leave_args_kind likewise for the list elements."""
 
     def __init__(self, J, Qe=None, Ql=None, modifies=(), enter_kind="oref", leave_kind="oref", depth=None, label="traverse",
-                 ghost_enter=None, ghost_leave=None):
+                 ghost_enter=None, ghost_leave=None, leave_arities=None, kids=None, fork_steps=False):
+        # fork_steps: run each step (enter / leave) on its OWN path that ends after the step's obligations, instead of continuing
+        # every path of the step through the rest of the carrier (same obligations, fewer repeated instances; for callbacks with many paths)
+        self.fork_steps = fork_steps
+        # leave_arities: for NON-SCALAR leave values (leave_kind callable(E) -> fresh value of the right shape) the leave step is
+        # run once per listed number of children (a concrete list of that many fresh values); that no other number of children
+        # occurs is an OBLIGATION (`leave/number-of-children-is-supported`) to be proved from the carrier's precondition.
+        # kids: (nkids, kid, rank) z3 functions to be used as the children enumeration of this call instead of fresh ones, so that
+        # the carrier's clauses can speak about "the k-th child in table order" (same definitional axioms are assumed for them).
+        self.leave_arities = list(leave_arities) if leave_arities is not None else None
+        self.kids = kids
         # ghost_enter / ghost_leave(E, vars, x, ctx): ghost code run right after the real callback (may update ghost objects listed in `modifies` only)
         self.ghost_enter, self.ghost_leave = ghost_enter, ghost_leave
         self.J, self.Qe, self.Ql = J, Qe or (lambda E, v, x, val, ctx: True), Ql or (lambda E, v, x, val, ctx: True)
@@ -52,8 +62,14 @@ class Ctx:
         return z3.And(t >= 0, t < self.n)
 
 
-def _mk_value(eng, kind, name):
+def _mk_value(eng, kind, name, node=None):
     if callable(kind):
+        import inspect
+
+        # kind(E) -> an arbitrary value of the right shape (pinned afterwards by assuming Ql);  kind(E, node) may build the value
+        # from the node term directly where Ql DETERMINES the value of a node (one-point rule: "fresh v with v == t" is t)
+        if node is not None and len(inspect.signature(kind).parameters) >= 2:
+            return kind(eng, node)
         return kind(eng)
     return fresh(kind, name)
 
@@ -85,9 +101,12 @@ def apply(eng, rule: Rule, fr, topology, enter, leave, root):
     # ---- ghost vocabulary of this call (definitional on a well-formed table)
     tag = fresh_name("tr")
     Sub = z3.Function("Sub_" + tag, I, B)
-    nkids = z3.Function("nkids_" + tag, I, I)
-    kid = z3.Function("kid_" + tag, I, I, I)
-    rank = z3.Function("rank_" + tag, I, I)
+    if rule.kids is not None:
+        nkids, kid, rank = rule.kids
+    else:
+        nkids = z3.Function("nkids_" + tag, I, I)
+        kid = z3.Function("kid_" + tag, I, I, I)
+        rank = z3.Function("rank_" + tag, I, I)
     eng.assume(Sub(rz))
     eng.assume(z3.ForAll([x], z3.Implies(Sub(x), R(x))))
     eng.assume(z3.ForAll([x], z3.Implies(z3.And(R(x), sel(P, x) >= 0, Sub(sel(P, x))), Sub(x))))
@@ -140,6 +159,12 @@ def apply(eng, rule: Rule, fr, topology, enter, leave, root):
 
     def phase(body):
         """run `body` on an arbitrary reachable state; its assumptions are dropped afterwards"""
+        if rule.fork_steps:
+            if eng.branch(fresh("bool", "run_step")):
+                havoc()
+                body()
+                raise PathEnd()
+            return
         mark = len(eng.pc)
         havoc()
         body()
@@ -189,10 +214,26 @@ def apply(eng, rule: Rule, fr, topology, enter, leave, root):
             args = None
             kind = rule.leave_kind
             if callable(kind):
-                raise Unsupported("traverse rule: non-scalar leave values need a fixed number of children (not implemented)")
-            args = PList.fresh(kind, n=nkids(xz), name="kidvals")
-            v = vars_now()
-            eng.assume(z3.ForAll([k], z3.Implies(z3.And(0 <= k, k < nkids(xz)), _zb(rule.Ql(eng, v, kid(xz, k), Sym(sel(args.cols[0], k), kind), ctx)))))
+                # non-scalar values: one run of the step per supported number of children, with a concrete list of fresh values
+                if rule.leave_arities is None:
+                    raise Unsupported("traverse rule: non-scalar leave values need `leave_arities` (the numbers of children the step is run for)")
+                arity = None
+                for a in rule.leave_arities:
+                    if eng.branch(eng.sbool(nkids(xz) == a)):
+                        arity = a
+                        break
+                if arity is None:
+                    eng.prove(f"{lab}/leave/number-of-children-is-supported", z3.BoolVal(False), "precondition",
+                              f"a node with a number of children outside {rule.leave_arities} is reachable")
+                    raise PathEnd()
+                args = PList([_mk_value(eng, kind, f"kidval{j}", kid(xz, z3.IntVal(j))) for j in range(arity)])
+                v = vars_now()
+                for j in range(arity):
+                    eng.assume(_zb(rule.Ql(eng, v, kid(xz, z3.IntVal(j)), args.items[j], ctx)))
+            else:
+                args = PList.fresh(kind, n=nkids(xz), name="kidvals")
+                v = vars_now()
+                eng.assume(z3.ForAll([k], z3.Implies(z3.And(0 <= k, k < nkids(xz)), _zb(rule.Ql(eng, v, kid(xz, k), Sym(sel(args.cols[0], k), kind), ctx)))))
             ret = eng.call(leave, [xs, args], {})
             if rule.ghost_leave is not None:
                 rule.ghost_leave(eng, vars_now(), xz, ctx)
@@ -208,7 +249,7 @@ def apply(eng, rule: Rule, fr, topology, enter, leave, root):
     eng.assume(_zb(rule.J(eng, vars_now(), S_all, S_all, ctx)))
     if leave is None:
         return None
-    res = _mk_value(eng, rule.leave_kind, "trav")
+    res = _mk_value(eng, rule.leave_kind, "trav", rz)
     eng.assume(_zb(rule.Ql(eng, vars_now(), rz, res, ctx)))
     return res
 
